@@ -51,6 +51,19 @@ Definition iter_supermasks (w x : N) : option (list N) :=
   | inr l => Some l
   | inl _ => None
   end.
+
+(** [from_fn(..).chain([last]).take(k)], collected: [next()] is called at most [k] times ([k] is the small number
+    of items a caller asks for, so structural recursion on it is the loop) *)
+Fixpoint chain_take (next : N -> option (N * N)) (last : N) (k : nat) (s : N) : list N :=
+  match k with
+  | O => []
+  | S k' => match next s with
+            | None => [last]
+            | Some (cur, s') => cur :: chain_take next last k' s'
+            end
+  end.
+Definition iter_submasks_take (w x : N) (k : nat) : list N := chain_take (next_submask w x) 0 k x.
+Definition iter_supermasks_take (w x : N) (k : nat) : list N := chain_take (next_supermask w x) (ones w) k x.
 End Masks.
 
 (** * permutations.rs *)
@@ -123,6 +136,16 @@ Definition iter_permutations (d : list Z) : option (list (list Z)) :=
   | inr l => Some l
   | inl _ => None
   end.
+
+(** [iter_permutations(d).take(k)], collected: the sorted data, then up to [k - 1] further calls of
+    [PermutationIter::next], stopping at the first call whose [next_permutation] returns [false] *)
+Fixpoint perm_take_from (cur : list Z) (k : nat) : list (list Z) :=
+  match k with
+  | O => []
+  | S k' => let '(b, nxt) := next_permutation cur in if b then nxt :: perm_take_from nxt k' else []
+  end.
+Definition iter_permutations_take (d : list Z) (k : nat) : list (list Z) :=
+  match k with O => [] | S k' => let s := sort d in s :: perm_take_from s k' end.
 End Perms.
 
 (** * neighbours.rs *)
